@@ -1,6 +1,7 @@
 import StoneVerif.Model.Rt.Spec
 import StoneVerif.Model.Rt.WF
 import StoneVerif.Model.Rt.Decode
+import StoneVerif.Model.Rt.WFExtra
 /-
 RT model, C07: two environments (an older spec `A`, a newer spec `B`) and the specification-level notions of
 docs/evolve_spec.rst ("Backwards Compatible Changes").  Written from the guide and the property text, NOT from
@@ -131,6 +132,25 @@ def compatEnv (ρ : Rho) (A B : Env) : Bool := ρ.wf && ρ.all (pairOk ρ A B)
 
 /-- "A is an older version of B at this type" -/
 def subB (ρ : Rho) (A B : Env) (tA tB : PTy) : Bool := compatEnv ρ A B && tySub ρ tA tB
+
+/-! ### inherited attribute descriptors
+
+A subclass inherits the very `bb.Attribute` objects of its ancestors.  `envWF` compares the copies of a level along a
+chain by field *names* only, `envWFX` (C05) also by validator / nullable / has-default / omitted-caller; the decoder's
+`Attribute.__set__` additionally looks at `user_defined`.  `envWFU` = `envWFX` plus that flag.  Evaluated by the driver on
+every environment. -/
+
+def sameAttr (a b : FieldDef) : Bool := a.sameWire b && a.attrUserDefined == b.attrUserDefined
+
+def attrsPrefixU : List FieldDef → List FieldDef → Bool
+  | [], _ => true
+  | _ :: _, [] => false
+  | a :: as, b :: bs => sameAttr a b && attrsPrefixU as bs
+
+def envWFU (env : Env) : Bool :=
+  env.structs.all fun s => s.levels.all fun l => match env.struct? l.cls with
+    | some a => attrsPrefixU a.allAttrs s.allAttrs
+    | none => false
 
 /-! ### values -/
 
